@@ -11,14 +11,14 @@ import (
 func init() { Checks["C06"] = CheckC06 }
 
 type c06Case struct {
-	ID        int
-	Transport string
-	LenC, LenH int   // client->host and host->client stream lengths
-	PktSizes  []int // client payload sizes, cycling; 0 = PRNG
-	Lie       string // "", "short" (cblen < carried), "long" (cblen > carried) on some packets
-	HostSegs  []int
-	Pace      bool
-	Seed      int64
+	ID         int
+	Transport  string
+	LenC, LenH int    // client->host and host->client stream lengths
+	PktSizes   []int  // client payload sizes, cycling; 0 = PRNG
+	Lie        string // "", "short" (cblen < carried), "long" (cblen > carried) on some packets
+	HostSegs   []int
+	Pace       bool
+	Seed       int64
 }
 
 type piece struct {
@@ -88,6 +88,9 @@ func CheckC06(l *Lab, verifDir string) int {
 		}()
 	}
 	for _, c := range cases {
+		if rep.ViolationCount() > 12 || !f.GW.Alive() {
+			break // a broken tree: every further case may cost the full watchdog
+		}
 		jobs <- c
 	}
 	close(jobs)
